@@ -119,11 +119,13 @@ func applyOpOverrides(of *gql.OpFeatures, on, off featSet) {
 	set("abstract-frags", &of.AbstractFrags)
 	set("explicit-id", &of.ExplicitID)
 	set("id-alias", &of.IDAlias)
+	set("id-directive", &of.IDDirective)
 	set("id-with-fragments", &of.IDWithFragments)
 	set("abstract-nested", &of.AbstractNested)
 	set("abstract-cond-frag", &of.AbstractCondFrag)
 	set("abstract-frag-meta", &of.AbstractFragMeta)
 	set("frag-twice", &of.FragTwice)
+	set("frag-directives", &of.FragDirectives)
 }
 
 func opFeatures(s *sched.Sim, cfg Config) gql.OpFeatures {
